@@ -86,11 +86,6 @@ end prescribe
 /-! ### distinctness and disjointness follow from the slot allocation -/
 section partitionDistinct
 
-theorem sel_pres_zero (m : Method) : ¬ (isPres m = true ∧ isZero m = true) := by cases m <;> simp [isPres, isZero]
-theorem sel_pres_free (m : Method) : ¬ (isPres m = true ∧ isFree m = true) := by cases m <;> simp [isPres, isFree]
-theorem sel_zero_free (m : Method) : ¬ (isZero m = true ∧ isFree m = true) := by cases m <;> simp [isZero, isFree]
-theorem sel_free_known (m : Method) : ¬ (isFree m = true ∧ notFree m = true) := by cases m <;> simp [isFree, notFree]
-
 /-- **The index arrays of `realizeSubsystemInstanceImpl` have distinct entries, are mutually disjoint and in range**,
 for every per-mobilizer method assignment, given only that slots were allocated consecutively (`Alloc`). -/
 theorem partition_distinct (es : List (Nat × Nat × Method)) (h : Alloc es) (N : Nat) (hN : ∀ e ∈ es, e.1 + e.2.1 ≤ N) :
@@ -102,20 +97,6 @@ theorem partition_distinct (es : List (Nat × Nat × Method)) (h : Alloc es) (N 
    collect_disjoint _ _ sel_pres_zero _ h, collect_disjoint _ _ sel_pres_free _ h,
    collect_disjoint _ _ sel_zero_free _ h, collect_disjoint _ _ sel_free_known _ h,
    collect_lt _ _ N hN, collect_lt _ _ N hN⟩
-
-/-- pools and index lists have the same length when every mobilizer delivers one value per slot -/
-theorem collect_length_eq_vals {K : Type} (sel : Method → Bool) (es : List (Nat × Nat × Method)) (vs : List (Method × List K))
-    (h : List.Forall₂ (fun e v => e.2.2 = v.1 ∧ v.2.length = e.2.1) es vs) :
-    (collect sel es).length = (collectVals sel vs).length := by
-  induction h with
-  | nil => simp [collect, collectVals]
-  | @cons e v es vs hab _ ih =>
-    obtain ⟨start, n, m⟩ := e
-    obtain ⟨m', l⟩ := v
-    simp only at hab
-    obtain ⟨rfl, hl⟩ := hab
-    simp only [collect, collectVals, List.length_append, ih, length_slotsIf]
-    cases sel m <;> simp [hl]
 
 /-- **prescribe_exact for the model's own partition**: whatever the locks / Motions of the mobilizers, if q slots were
 allocated consecutively inside a q vector of length `q.length` and every mobilizer supplies `nq` values, then after
@@ -341,42 +322,6 @@ end blocks
 
 section modelLevel
 variable {K : Type} [Field K]
-
-theorem matVec_getElem (A : List (List K)) (x : List K) (k : Nat) (hk : k < A.length) :
-    (matVec A x)[k]'(by simpa [matVec] using hk) = dot A[k] x := by
-  simp [matVec]
-
-theorem subMat_getElem (M : List (List K)) (ri ci : List Nat) (k : Nat) (hk : k < ri.length) :
-    (subMat M ri ci)[k]'(by simpa [subMat] using hk) = pick (M.getD ri[k] []) ci := by
-  simp [subMat]
-
-theorem pick_getElem (xs : List K) (idx : List Nat) (k : Nat) (hk : k < idx.length) :
-    (pick xs idx)[k]'(by simpa [pick] using hk) = xs.getD idx[k] 0 := by
-  simp [pick]
-
-/-- the k-th equation of the reduced system, read off the list equation -/
-theorem reduced_row (M : List (List K)) (f : List K) (r p : List Nat) (udr udp : List K)
-    (hsolve : matVec (subMat M r r) udr = reducedRhs M f r p udp) (k : Nat) (hk : k < r.length) :
-    dot (pick (M.getD r[k] []) r) udr = f.getD r[k] 0 - dot (pick (M.getD r[k] []) p) udp := by
-  have h1 : k < (matVec (subMat M r r) udr).length := by simp [matVec, subMat, hk]
-  have h2 : k < (reducedRhs M f r p udp).length := by rw [← hsolve]; exact h1
-  have := List.getElem_of_eq hsolve h1
-  rw [matVec_getElem _ _ _ (by simpa [subMat] using hk), subMat_getElem _ _ _ _ hk] at this
-  rw [this]
-  simp only [reducedRhs, vsub, List.getElem_zipWith]
-  rw [pick_getElem _ _ _ hk, matVec_getElem _ _ _ (by simpa [subMat] using hk), subMat_getElem _ _ _ _ hk]
-
-/-- the k-th reported motion force -/
-theorem tauOf_getElem (M : List (List K)) (f : List K) (r p : List Nat) (udr udp : List K) (k : Nat) (hk : k < p.length) :
-    (tauOf M f r p udr udp)[k]'(by simp [tauOf, vsub, pick, matVec, subMat, hk]) =
-      f.getD p[k] 0 - dot (pick (M.getD p[k] []) r) udr - dot (pick (M.getD p[k] []) p) udp := by
-  simp only [tauOf, vsub, List.getElem_zipWith]
-  rw [pick_getElem _ _ _ hk, matVec_getElem _ _ _ (by simpa [subMat] using hk), subMat_getElem _ _ _ _ hk,
-      matVec_getElem _ _ _ (by simpa [subMat] using hk), subMat_getElem _ _ _ _ hk]
-
-theorem tauOf_length (M : List (List K)) (f : List K) (r p : List Nat) (udr udp : List K) :
-    (tauOf M f r p udr udp).length = p.length := by
-  simp [tauOf, vsub, pick, matVec, subMat]
 
 /-- **tau as applied force, on the executable list model.**  Free indices `r`, prescribed indices `p` (distinct,
 disjoint, `< n`), `udr` solving the reduced system the model sets up, `tau` the model's reported forces.  Then every
